@@ -290,7 +290,23 @@ def run(p: Program, rep: Report, tier: str) -> None:
     rep.require_instances("R14.2", 3)
     rep.require_instances("R14.3", 2)
     rep.require_instances("R14.4", 3)
-    rep.require_instances("R14.5", 2)
+    # the 304 decision is taken in file_response and nowhere else: a second "not modified" shortcut (e.g. inside the
+    # file response object, comparing header strings) bypasses the validators computed from the file's current stat
+    producers = []
+    for f_ in p.all_functions():
+        for n in ast.walk(f_.node):
+            if isinstance(n, ast.Constant) and n.value == 304 and not isinstance(getattr(n, "_parent", None), ast.Dict):
+                producers.append((f_, n))
+            elif isinstance(n, ast.Constant) and isinstance(n.value, str) and n.value.startswith("304"):
+                producers.append((f_, n))
+    allowed = {"file_response"}
+    for f_, n in producers:
+        if f_.name in allowed and f_.module.name.endswith("staticfiles"):
+            rep.ok("R14.5", f"{f_.fq}: the 304 answer is produced by file_response")
+        else:
+            rep.violation("R14.5", construct(f_, text="second 304 producer"), where(f_, n), f"{f_.fq} answers 304 by itself: 'not modified' is decided outside file_response, without the ETag / change-time "
+                          "validators of the file's current stat (a replacement that keeps the mtime second revalidates although the content changed)")
+    rep.require_instances("R14.5", 4)
 
 
 def _header_derived(v: ast.expr, call: FuncInfo, side: str) -> bool:
